@@ -852,17 +852,29 @@ Proof.
     eapply reach_slot; eauto. eapply nth_Some_In; eauto.
   - destruct (holder_acc s i t) eqn:E; auto.
     apply wf_set_slot; auto. intros r Hr; discriminate.
+  - simpl in T. destruct (holder_acc s i t && rec_ok s i f) eqn:E; simpl; auto.
+    simpl in T. apply andb_true_iff in E; destruct E as [E1 E2].
+    destruct (kind_eqb (o_kind (getd s (holder_of s i t))) KTable); auto.
+    apply wf_upd; auto.
+    + simpl; apply incl_refl.
+    + intros A. split.
+      * intros y K. split; [eapply wf_closed; eauto | left; auto].
+      * simpl. intros r K. apply in_app_or in K. destruct K as [K | [K | []]]; [left; auto | right].
+        inversion K; subst. apply holder_covers; auto using holder_ok_split. apply rec_ok_spec; auto.
   - simpl in T. destruct (rec_ok s i f && holder_acc s j t) eqn:E; auto.
     simpl in T. apply andb_true_iff in E; destruct E as [E1 E2].
-    apply andb_true_iff in T; destruct T as [TI T].
-    apply wf_set_slot; auto. intros r Hr _. inversion Hr; subst.
-    apply holder_covers; auto using holder_ok_split.
     destruct (rec_ok_spec s i f W E1) as [I [Rv R]].
+    apply wf_set_slot; auto. intros r Hr _. inversion Hr; subst.
     apply orb_true_iff in T. destruct T as [T | T].
-    + apply Nat.eqb_eq in T; subst; auto.
-    + apply memb_In in T. destruct (holder_acc_spec s j t W E2) as [J _].
-      destruct (inst_ok_spec s j W J) as [_ [Jv _]].
-      econstructor; [exact Jv|]. econstructor; [exact T|]. apply sreach_edge; auto.
+    + apply andb_true_iff in T; destruct T as [TI T].
+      apply holder_covers; auto using holder_ok_split.
+      apply orb_true_iff in T. destruct T as [T | T].
+      * apply Nat.eqb_eq in T; subst; auto.
+      * apply memb_In in T. destruct (holder_acc_spec s j t W E2) as [J _].
+        destruct (inst_ok_spec s j W J) as [_ [Jv _]].
+        econstructor; [exact Jv|]. econstructor; [exact T|]. apply sreach_edge; auto.
+    + unfold sharedb in T. unfold cover, owner. destruct (o_owner (getd s (holder_of s j t))); [discriminate|].
+      apply memb_In in T. econstructor; [exact T | exact R].
   - auto.
   - auto.
   - destruct (inst_ok s i) eqn:E; auto.
@@ -1150,13 +1162,25 @@ Proof.
   - rewrite memb_In. split; auto. intros [[c K] | K]; auto. discriminate.
 Qed.
 
+(* h is a shared holder listing i among its involving instances *)
+Definition shared_with (s : state) (i h : nat) : Prop := owner s h = None /\ In i (o_vis (getd s h)).
+
+Lemma sharedb_spec : forall s i h, sharedb s i h = true <-> shared_with s i h.
+Proof.
+  intros s i h. unfold sharedb, shared_with, owner. destruct (o_owner (getd s h)) as [c|].
+  - split; [discriminate | intros [K _]; discriminate].
+  - rewrite memb_In. tauto.
+Qed.
+
 Definition tracked_prop (s : state) (o : op) : Prop :=
   match o with
   | OSetRef i t k f => holder_acc s i t = true -> rec_ok s i f = true -> involved s i (holder_of s i t)
+  | OGrowRef i t f => holder_acc s i t = true -> rec_ok s i f = true -> involved s i (holder_of s i t)
   | OCopy i ts ks td kd => holder_acc s i ts = true -> holder_acc s i td = true -> involved s i (holder_of s i td)
   | OPassParam i f j t k =>
       rec_ok s i f = true -> holder_acc s j t = true ->
-      involved s j (holder_of s j t) /\ (i = j \/ In (me_of s i) (o_vis (getd s (me_of s j))))
+      (involved s j (holder_of s j t) /\ (i = j \/ In (me_of s i) (o_vis (getd s (me_of s j)))))
+      \/ shared_with s i (holder_of s j t)
   | _ => True
   end.
 
@@ -1167,7 +1191,9 @@ Proof.
     destruct (holder_acc s i t); destruct (rec_ok s i f); intuition discriminate.
   - rewrite orb_true_iff, negb_true_iff, andb_false_iff, involvedb_spec.
     destruct (holder_acc s i ts); destruct (holder_acc s i td); intuition discriminate.
-  - rewrite orb_true_iff, negb_true_iff, andb_false_iff, andb_true_iff, orb_true_iff, involvedb_spec, Nat.eqb_eq, memb_In.
+  - rewrite orb_true_iff, negb_true_iff, andb_false_iff, involvedb_spec.
+    destruct (holder_acc s i t); destruct (rec_ok s i f); intuition discriminate.
+  - rewrite !orb_true_iff, negb_true_iff, andb_false_iff, andb_true_iff, orb_true_iff, involvedb_spec, Nat.eqb_eq, memb_In, sharedb_spec.
     destruct (rec_ok s i f); destruct (holder_acc s j t); intuition discriminate.
 Qed.
 
